@@ -13,6 +13,18 @@ CLAIMED = {
   "Deductive proof, for all inputs and all loop iterations, of the contracts of util/ordset's leaf node (binary search result characterisation; insert: index-wise whole-view post-condition, representation invariant preserved, frame, no run-time panic, termination of the search loop). Top-level post-conditions are taken from the property statement (set semantics of insert/membership).",
   "Scope: ordset leaf-node operations only (see evidence functions_under_contract); tree-level Insert/split/AnyInRange, util/ranges, sortlist, bloom, roaring, shmap, lrucache, cache are NOT covered yet. Strings are abstracted as a totally ordered sort (sound for comparison-only code). Sequential semantics only.",
   "DESIGN.md §4 C39"),
+ "C38": (
+  "Deductive proof, for all byte strings, of the reference semantics of util/ascii (exact byte sets, ToLower/ToUpper, Digit) and util/str (CmpLower = lexicographic comparison of lower-cased strings, EqualCI, ToLower/ToUpper pointwise with input unmodified, CommonPrefix/CommonPrefixLen maximality, Subi/Subn, Cut), including index-bounds safety, overflow freedom and termination of every loop.",
+  "Scope: ascii.* and the str helpers listed in evidence; util/tr (translation sets), str.Join/Split (delegate to strings.*) are NOT covered yet. Assumed library contracts: cmp.Compare, strings.IndexByte, hacks.BStoS (unsafe). Sequential semantics.",
+  "DESIGN.md §4 C38"),
+ "C11": (
+  "Deductive proof of the per-key combination algebra of index buffers: ixbuf.Combine against its five-row table for all 64-bit operands (bit-vector semantics), the lemma that Combine(o1,o2) applied to any key state equals applying o1 then o2 (and panics only for sequences with no sequential meaning), and the binary searches/Lookup over sorted chunk lists (result characterisation over the whole buffer, bounds safety, termination).",
+  "Scope: Combine, the combine_is_sequential/combine_oldoff lemmas, search, searchChunks, (*ixbuf).search, Lookup, goal. NOT covered: the k-way Merge/passthru and Insert with chunk splitting (stated unverified). Precondition: operands use only the low 40 offset bits and the top two flag bits (bits 40..61 clear). Strings abstracted as a totally ordered sort. log.Println/dbg.PrintStack assumed effect-free.",
+  "DESIGN.md §4 C11"),
+ "C14": (
+  "Deductive proof of binary encoding round trips: stor.Writer.Put1..Put5/PutStr append exactly the little-endian bytes (and panic exactly outside the range), Reader.Get1..Get5/GetStr invert them (arithmetic lemmas putget2..5), 5-byte small offsets round trip for all offsets < 2^40, and the zig-zag base-128 varints of dbms/mux: PutInt64 emits exactly the closed-form encoding and GetInt64 decodes it back for ALL int64 (bit-vector semantics, loops completely unrolled with unwinding obligations), with frames and bounds safety.",
+  "Scope: functions listed in evidence. NOT covered yet: core.Record/RecordBuilder layout, PutStrs/GetStrs, the WriteBuf flush path (Write1 is an assumed contract over a ghost output stream: the network write is trusted), pack ints. Object sizes assumed <= 2^48 bytes (Go runtime maxAlloc).",
+  "DESIGN.md §4 C14"),
 }
 
 NA = {
